@@ -56,7 +56,7 @@ def gen(rng, size='small'):
         for g in tags:
             if rng.random() < 0.8:
                 e = dict(t=t, g=g, cap=unit * rng.choice([0, 1, 1, 1, 2, 2, 3, 6]), dur=rng.choice([0, 0, 4, 8, 8, 16, 24]),
-                         cost=8 * rng.choice([0, 0, 1, 5, 10]), start=[], end=[])
+                         cost=8 * rng.choice([0, 0, 1, 5, 10, -2]), start=[], end=[])
                 if rng.random() < 0.15:
                     e['start'].append([rng.randrange(ntargets), rng.choice(tags)])
                 if rng.random() < 0.2:
